@@ -380,8 +380,12 @@ func (fr *Frame) atCall(st *State, name string, args []Val, pos token.Pos) {
 		}
 		t := trBoolTol(env, c, "false")
 		u.oblige(st, "at", fmt.Sprintf("%s/at:%s", top.fnLabel(), clauseName(c, i)), t, pos, c, "at call "+name+": "+c.Src)
-		// asserted here, hence available as a fact from here on (assert-then-assume)
-		u.assumeG(st, t)
+		// asserted here, hence available as a fact from here on (assert-then-assume) - unless the clause could not be
+		// translated (it names something the function no longer has): assuming `false` would make every later
+		// obligation of the function vacuously true
+		if t != "false" {
+			u.assumeG(st, t)
+		}
 	}
 }
 
